@@ -11,15 +11,25 @@ mkdir -p $BUILD/shim
 echo "#include \"$REPO/compat/libc/include/ctype.h\"" > $BUILD/shim/ctype.h
 printf '#include_next <errno.h>\n#include <igris/util/errno.h>\n' > $BUILD/shim/errno.h
 LIBC="-O1 -g $SAN -fno-omit-frame-pointer -fno-builtin -D_GNU_SOURCE -D__weak_alias(a,b)= -isystem $BUILD/shim -I$REPO"
-par clang -c $CF $REPO/igris/util/numconvert.c -o $BUILD/numconvert.o
-par clang -c $CF $REPO/igris/dprint/dprint_func_impl.c -o $BUILD/dprint.o
-par clang -c $LIBC $REPO/compat/libc/stdlib/itoa.c -o $BUILD/itoa.o
-par clang -c $LIBC $REPO/compat/libc/stdlib/atol.c -o $BUILD/atol.o
-par clang++ -std=c++17 -c $CF $H/c07_int.cpp -o $BUILD/h.o
+# two builds of everything that handles characters: plain char signed (host default) and -funsigned-char
+for V in s u; do
+  if [ $V = u ]; then X="-funsigned-char -DVARIANT_UCHAR"; else X=""; fi
+  par clang -c $CF $X $REPO/igris/util/numconvert.c -o $BUILD/numconvert_$V.o
+  par clang -c $CF $X $REPO/igris/dprint/dprint_func_impl.c -o $BUILD/dprint_$V.o
+  par clang -c $LIBC $X $REPO/compat/libc/stdlib/itoa.c -o $BUILD/itoa_$V.o
+  par clang -c $LIBC $X $REPO/compat/libc/stdlib/atol.c -o $BUILD/atol_$V.o
+  par clang++ -std=c++17 -c $CF $X $H/c07_int.cpp -o $BUILD/h_$V.o
+done
 par clang++ -std=c++17 -O2 -c -I$MC $MC/mc.cpp -o $BUILD/mc.o
 parwait
 for s in itoa utoa ltoa ultoa; do R="$R --redefine-sym $s=igc_$s"; done
-objcopy $R $BUILD/itoa.o
-objcopy --redefine-sym atol=igc_atol --redefine-sym atoi=igc_atoi $BUILD/atol.o
-clang++ $SAN $BUILD/h.o $BUILD/numconvert.o $BUILD/dprint.o $BUILD/itoa.o $BUILD/atol.o $BUILD/mc.o -o $BUILD/c07
-echo "int $BUILD/c07" > $BUILD/runs.txt
+for V in s u; do
+  objcopy $R $BUILD/itoa_$V.o
+  objcopy --redefine-sym atol=igc_atol --redefine-sym atoi=igc_atoi $BUILD/atol_$V.o
+done
+par clang++ $SAN $BUILD/h_s.o $BUILD/numconvert_s.o $BUILD/dprint_s.o $BUILD/itoa_s.o $BUILD/atol_s.o $BUILD/mc.o -o $BUILD/c07
+par clang++ $SAN $BUILD/h_u.o $BUILD/numconvert_u.o $BUILD/dprint_u.o $BUILD/itoa_u.o $BUILD/atol_u.o $BUILD/mc.o -o $BUILD/c07u
+parwait
+# the short variant run first: ./check splits the remaining deadline evenly over the runs that are left
+echo "int_unsigned_char $BUILD/c07u" > $BUILD/runs.txt
+echo "int $BUILD/c07" >> $BUILD/runs.txt
